@@ -355,7 +355,7 @@ def like_spec(c, ids=None):
 
 def build_like(c):
     dic = {}
-    for el in like_spec(c):
+    for el in (tt.explicit64(like_spec(c)) if c.get("f32default") else like_spec(c)):
         tt.build(el, dic)
     return dic
 
